@@ -248,29 +248,31 @@ def St.view (s : St) (t : Nat) : TView :=
    s.accepted.contains t, s.rejected.contains t⟩
 
 /-- the local transitions of a task object: every event changes the view of every task either not at all
-or by one of these -/
-inductive TTrans : TView → TView → Prop where
+or by one of these.
+`TTrans ext v v'`: `ext = true` for the transitions made by a `dispatch` / `dispatch_blocking` call (new
+work entering the system), `false` for everything the dispatcher does with it afterwards -/
+inductive TTrans : Bool → TView → TView → Prop where
   | accept (v : TView) (b : Body) : v.stat = .absent → v.rej = false →
-      TTrans v { v with stat := .queued, chan := .pending, body := b, acc := true }
+      TTrans true v { v with stat := .queued, chan := .pending, body := b, acc := true }
   | acceptBlocking (v : TView) (b : Body) : v.stat = .absent → v.rej = false →
-      TTrans v { v with stat := .pooled, chan := .pending, body := b, acc := true }
-  | reject (v : TView) : v.stat = .absent → TTrans v { v with rej := true }
-  | recv (v : TView) (w : Nat) : v.stat = .queued → TTrans v { v with stat := .spawned w }
+      TTrans true v { v with stat := .pooled, chan := .pending, body := b, acc := true }
+  | reject (v : TView) : v.stat = .absent → TTrans true v { v with rej := true }
+  | recv (v : TView) (w : Nat) : v.stat = .queued → TTrans false v { v with stat := .spawned w }
   | start (v : TView) (w : Nat) : v.stat = .spawned w →
-      TTrans v { v with stat := .running w v.body.steps, started := v.started + 1, startedOn := w :: v.startedOn }
-  | resume (v : TView) (w k : Nat) : v.stat = .running w (k + 1) → TTrans v { v with stat := .running w k }
+      TTrans false v { v with stat := .running w v.body.steps, started := v.started + 1, startedOn := w :: v.startedOn }
+  | resume (v : TView) (w k : Nat) : v.stat = .running w (k + 1) → TTrans false v { v with stat := .running w k }
   | finishOk (v : TView) (w x : Nat) : v.stat = .running w 0 → v.body.out = .ok x →
-      TTrans v { v with stat := .done w, chan := v.chan.send x, ended := v.ended + 1, sent := v.sent + 1 }
+      TTrans false v { v with stat := .done w, chan := v.chan.send x, ended := v.ended + 1, sent := v.sent + 1 }
   | finishPanic (v : TView) (w : Nat) : v.stat = .running w 0 → v.body.out = .panic →
-      TTrans v { v with stat := .done w, chan := v.chan.cancel, ended := v.ended + 1 }
-  | dropQueued (v : TView) : v.stat = .queued → TTrans v { v with stat := .dropped none, chan := v.chan.cancel }
+      TTrans false v { v with stat := .done w, chan := v.chan.cancel, ended := v.ended + 1 }
+  | dropQueued (v : TView) : v.stat = .queued → TTrans false v { v with stat := .dropped none, chan := v.chan.cancel }
   | dropActive (v : TView) (w : Nat) : v.stat.activeOn w = true →
-      TTrans v { v with stat := v.stat.dropIt, chan := v.chan.cancel }
+      TTrans false v { v with stat := v.stat.dropIt, chan := v.chan.cancel }
   | blockingOk (v : TView) (x : Nat) : v.stat = .pooled → v.body.out = .ok x →
-      TTrans v { v with stat := .poolDone, chan := v.chan.send x, started := v.started + 1, ended := v.ended + 1, sent := v.sent + 1 }
+      TTrans false v { v with stat := .poolDone, chan := v.chan.send x, started := v.started + 1, ended := v.ended + 1, sent := v.sent + 1 }
   | blockingPanic (v : TView) : v.stat = .pooled → v.body.out = .panic →
-      TTrans v { v with stat := .poolDone, chan := v.chan.cancel, started := v.started + 1, ended := v.ended + 1 }
-  | rxDrop (v : TView) : v.chan ≠ .none → TTrans v { v with chan := .closed }
+      TTrans false v { v with stat := .poolDone, chan := v.chan.cancel, started := v.started + 1, ended := v.ended + 1 }
+  | rxDrop (v : TView) : v.chan ≠ .none → v.chan ≠ .closed → TTrans false v { v with chan := .closed }
 
 /-! ### the queue holds exactly the tasks in state `queued`, each once -/
 
@@ -390,7 +392,7 @@ theorem QInv.init (nw : Nat) (conc : Bool) : QInv (init nw conc) :=
 /-! ### every event moves every task along its life cycle (or leaves it alone) -/
 
 theorem view_gc {s : St} (hq : QInv s) (t : Nat) :
-    (gc s).view t = s.view t ∨ TTrans (s.view t) ((gc s).view t) := by
+    (gc s).view t = s.view t ∨ TTrans false (s.view t) ((gc s).view t) := by
   by_cases h : freed s = true ∧ t ∈ s.queue
   · right
     have := TTrans.dropQueued (s.view t) ((hq.mem t).mp h.2)
@@ -398,7 +400,7 @@ theorem view_gc {s : St} (hq : QInv s) (t : Nat) :
   · left; simp [St.view, gc_stat, gc_chan, h]
 
 theorem view_clearExec (s : St) (w t : Nat) :
-    (clearExec s w).view t = s.view t ∨ TTrans (s.view t) ((clearExec s w).view t) := by
+    (clearExec s w).view t = s.view t ∨ TTrans false (s.view t) ((clearExec s w).view t) := by
   by_cases h : (s.stat t).activeOn w = true
   · right
     have := TTrans.dropActive (s.view t) w h
@@ -408,7 +410,7 @@ theorem view_clearExec (s : St) (w t : Nat) :
 /-- a task dropped by `clearExec` is not queued afterwards, so `gc` after `clearExec` touches a task at most
 once -/
 theorem view_gc_clearExec {s : St} (hq : QInv s) (w t : Nat) :
-    (gc (clearExec s w)).view t = s.view t ∨ TTrans (s.view t) ((gc (clearExec s w)).view t) := by
+    (gc (clearExec s w)).view t = s.view t ∨ TTrans false (s.view t) ((gc (clearExec s w)).view t) := by
   have hq' := hq.clearExec w
   by_cases h : (s.stat t).activeOn w = true
   · -- dropped by clearExec; not in the queue
@@ -423,8 +425,13 @@ theorem view_gc_clearExec {s : St} (hq : QInv s) (w t : Nat) :
       simp [St.view, clearExec_stat, clearExec_chan, h]
     rw [← this]; exact view_gc hq' t
 
+/-- the event is a call that brings new work -/
+def Event.external : Event → Bool
+  | .dispatch .. | .dispatchBlocking .. => true
+  | _ => false
+
 theorem step_view {s s' : St} {e : Event} (hq : QInv s) (h : step? s e = some s') (t' : Nat) :
-    s'.view t' = s.view t' ∨ TTrans (s.view t') (s'.view t') := by
+    s'.view t' = s.view t' ∨ TTrans e.external (s.view t') (s'.view t') := by
   cases e with
   | dispatch d t b =>
     obtain ⟨_, ha, hr, hc | hc⟩ := dispatch?_some h
@@ -432,13 +439,13 @@ theorem step_view {s s' : St} {e : Event} (hq : QInv s) (h : step? s e = some s'
       by_cases ht : t' = t
       · subst ht; right
         have := TTrans.accept (s.view t') b ha (by simpa [St.view] using hr)
-        simpa [St.view] using this
+        simpa [St.view, Event.external] using this
       · left; simp [St.view, upd_other _ _ ht, ht]
     · obtain ⟨_, rfl⟩ := hc
       by_cases ht : t' = t
       · subst ht; right
         have := TTrans.reject (s.view t') ha
-        simpa [St.view] using this
+        simpa [St.view, Event.external] using this
       · left; simp [St.view, ht]
   | dispatchBlocking d t b ok =>
     obtain ⟨_, ha, hr, hc | hc⟩ := dispatchBlocking?_some h
@@ -446,13 +453,13 @@ theorem step_view {s s' : St} {e : Event} (hq : QInv s) (h : step? s e = some s'
       by_cases ht : t' = t
       · subst ht; right
         have := TTrans.acceptBlocking (s.view t') b ha (by simpa [St.view] using hr)
-        simpa [St.view] using this
+        simpa [St.view, Event.external] using this
       · left; simp [St.view, upd_other _ _ ht, ht]
     · obtain ⟨_, rfl⟩ := hc
       by_cases ht : t' = t
       · subst ht; right
         have := TTrans.reject (s.view t') ha
-        simpa [St.view] using this
+        simpa [St.view, Event.external] using this
       · left; simp [St.view, ht]
   | runBlocking t =>
     obtain ⟨hp, hc | hc⟩ := runBlocking?_some h
@@ -460,27 +467,27 @@ theorem step_view {s s' : St} {e : Event} (hq : QInv s) (h : step? s e = some s'
       by_cases ht : t' = t
       · subst ht; right
         have := TTrans.blockingOk (s.view t') v hp hv
-        simpa [St.view] using this
+        simpa [St.view, Event.external] using this
       · left; simp [St.view, upd_other _ _ ht]
     · obtain ⟨hv, rfl⟩ := hc
       by_cases ht : t' = t
       · subst ht; right
         have := TTrans.blockingPanic (s.view t') hp hv
-        simpa [St.view] using this
+        simpa [St.view, Event.external] using this
       · left; simp [St.view, upd_other _ _ ht]
   | rxDrop t =>
-    obtain ⟨hn, _, rfl⟩ := rxDrop?_some h
+    obtain ⟨hn, hn2, rfl⟩ := rxDrop?_some h
     by_cases ht : t' = t
     · subst ht; right
-      have := TTrans.rxDrop (s.view t') hn
-      simpa [St.view] using this
+      have := TTrans.rxDrop (s.view t') hn hn2
+      simpa [St.view, Event.external] using this
     · left; simp [St.view, upd_other _ _ ht]
   | recv w t =>
     obtain ⟨_, _, hmem, rfl⟩ := recv?_some h
     by_cases ht : t' = t
     · subst ht; right
       have := TTrans.recv (s.view t') w ((hq.mem t').mp hmem)
-      simpa [St.view] using this
+      simpa [St.view, Event.external] using this
     · left; simp [St.view, upd_other _ _ ht]
   | poll w t =>
     obtain ⟨_, _, hc | hc | hc | hc⟩ := poll?_some h
@@ -488,25 +495,25 @@ theorem step_view {s s' : St} {e : Event} (hq : QInv s) (h : step? s e = some s'
       by_cases ht : t' = t
       · subst ht; right
         have := TTrans.start (s.view t') w hst
-        simpa [St.view] using this
+        simpa [St.view, Event.external] using this
       · left; simp [St.view, upd_other _ _ ht]
     · obtain ⟨k, hst, rfl⟩ := hc
       by_cases ht : t' = t
       · subst ht; right
         have := TTrans.resume (s.view t') w k hst
-        simpa [St.view] using this
+        simpa [St.view, Event.external] using this
       · left; simp [St.view, upd_other _ _ ht]
     · obtain ⟨v, hst, hv, rfl⟩ := hc
       by_cases ht : t' = t
       · subst ht; right
         have := TTrans.finishOk (s.view t') w v hst hv
-        simpa [St.view] using this
+        simpa [St.view, Event.external] using this
       · left; simp [St.view, upd_other _ _ ht]
     · obtain ⟨hst, hv, rfl⟩ := hc
       by_cases ht : t' = t
       · subst ht; right
         have := TTrans.finishPanic (s.view t') w hst hv
-        simpa [St.view] using this
+        simpa [St.view, Event.external] using this
       · left; simp [St.view, upd_other _ _ ht]
   | die w p => obtain ⟨_, _, rfl⟩ := die?_some h; left; rfl
   | reap w =>
@@ -567,52 +574,52 @@ structure TView.Ok (v : TView) : Prop where
   acc : v.acc = true ↔ v.stat ≠ .absent
   rej : v.rej = true → v.stat = .absent
 
-theorem TTrans.ok {v v' : TView} (h : TTrans v v') (hv : v.Ok) : v'.Ok := by
+theorem TTrans.ok {ext : Bool} {v v' : TView} (h : TTrans ext v v') (hv : v.Ok) : v'.Ok := by
   obtain ⟨h1, h2, h3, h4, h5, h6, h7⟩ := hv
   cases h with
-  | accept b ha hr =>
+  | accept _ b ha hr =>
     simp only [ha] at h1 h2 h3 h4 h5 h6 h7
     exact ⟨by simpa [startedOf] using h1, by simpa [startedOnOf] using h2, by simpa [endedOf] using h3,
       by simp [sentOf, TStat.isDone] at h4 ⊢; cases hb : b.out <;> simp [hb] <;> (cases ho : v.body.out <;> simp_all),
       by simp [chanOk], by simp_all, by simp_all⟩
-  | acceptBlocking b ha hr =>
+  | acceptBlocking _ b ha hr =>
     simp only [ha] at h1 h2 h3 h4 h5 h6 h7
     exact ⟨by simpa [startedOf] using h1, by simpa [startedOnOf] using h2, by simpa [endedOf] using h3,
       by simp [sentOf, TStat.isDone] at h4 ⊢; cases hb : b.out <;> simp [hb] <;> (cases ho : v.body.out <;> simp_all),
       by simp [chanOk], by simp_all, by simp_all⟩
-  | reject ha =>
+  | reject _ ha =>
     exact ⟨h1, h2, h3, h4, h5, h6, fun _ => ha⟩
-  | recv w hq =>
+  | recv _ w hq =>
     simp only [hq] at h1 h2 h3 h4 h5 h6 h7
     exact ⟨by simpa [startedOf] using h1, by simpa [startedOnOf] using h2, by simpa [endedOf] using h3,
       by simpa [sentOf, TStat.isDone] using h4, by simpa [chanOk] using h5, by simp_all, by simp_all⟩
-  | start w hs =>
+  | start _ w hs =>
     simp only [hs] at h1 h2 h3 h4 h5 h6 h7
     exact ⟨by simp [startedOf] at h1 ⊢; omega, by simp [startedOnOf] at h2 ⊢; exact h2,
       by simpa [endedOf] using h3, by simpa [sentOf, TStat.isDone] using h4, by simpa [chanOk] using h5, by simp_all, by simp_all⟩
-  | resume w k hs =>
+  | resume _ w k hs =>
     simp only [hs] at h1 h2 h3 h4 h5 h6 h7
     exact ⟨by simpa [startedOf] using h1, by simpa [startedOnOf] using h2, by simpa [endedOf] using h3,
       by simpa [sentOf, TStat.isDone] using h4, by simpa [chanOk] using h5, by simp_all, by simp_all⟩
-  | finishOk w x hs ho =>
+  | finishOk _ w x hs ho =>
     simp only [hs] at h1 h2 h3 h4 h5 h6 h7
     refine ⟨by simpa [startedOf] using h1, by simpa [startedOnOf] using h2, by simp [endedOf] at h3 ⊢; omega,
       by simp [sentOf, TStat.isDone, ho] at h4 ⊢; omega, ?_, by simp_all, by simp_all⟩
     simp only [chanOk] at h5 ⊢
     rcases h5 with h5 | h5 <;> simp [h5, Chan.send, ho]
-  | finishPanic w hs ho =>
+  | finishPanic _ w hs ho =>
     simp only [hs] at h1 h2 h3 h4 h5 h6 h7
     refine ⟨by simpa [startedOf] using h1, by simpa [startedOnOf] using h2, by simp [endedOf] at h3 ⊢; omega,
       by simp [sentOf, TStat.isDone, ho] at h4 ⊢; exact h4, ?_, by simp_all, by simp_all⟩
     simp only [chanOk] at h5 ⊢
     rcases h5 with h5 | h5 <;> simp [h5, Chan.cancel, ho]
-  | dropQueued hq =>
+  | dropQueued _ hq =>
     simp only [hq] at h1 h2 h3 h4 h5 h6 h7
     refine ⟨by simpa [startedOf] using h1, by simpa [startedOnOf] using h2, by simpa [endedOf] using h3,
       by simpa [sentOf, TStat.isDone] using h4, ?_, by simp_all, by simp_all⟩
     simp only [chanOk] at h5 ⊢
     rcases h5 with h5 | h5 <;> simp [h5, Chan.cancel]
-  | dropActive w ha =>
+  | dropActive _ w ha =>
     cases hst : v.stat <;> simp [hst, TStat.activeOn] at ha
     · simp only [hst] at h1 h2 h3 h4 h5 h6 h7
       refine ⟨by simpa [startedOf, TStat.dropIt] using h1, by simpa [startedOnOf, TStat.dropIt] using h2,
@@ -626,19 +633,19 @@ theorem TTrans.ok {v v' : TView} (h : TTrans v v') (hv : v.Ok) : v'.Ok := by
         by simp_all [TStat.dropIt], by simp_all [TStat.dropIt]⟩
       simp only [chanOk, TStat.dropIt] at h5 ⊢
       rcases h5 with h5 | h5 <;> simp [h5, Chan.cancel]
-  | blockingOk x hs ho =>
+  | blockingOk _ x hs ho =>
     simp only [hs] at h1 h2 h3 h4 h5 h6 h7
     refine ⟨by simp [startedOf] at h1 ⊢; omega, by simpa [startedOnOf] using h2, by simp [endedOf] at h3 ⊢; omega,
       by simp [sentOf, TStat.isDone, ho] at h4 ⊢; omega, ?_, by simp_all, by simp_all⟩
     simp only [chanOk] at h5 ⊢
     rcases h5 with h5 | h5 <;> simp [h5, Chan.send, ho]
-  | blockingPanic hs ho =>
+  | blockingPanic _ hs ho =>
     simp only [hs] at h1 h2 h3 h4 h5 h6 h7
     refine ⟨by simp [startedOf] at h1 ⊢; omega, by simpa [startedOnOf] using h2, by simp [endedOf] at h3 ⊢; omega,
       by simp [sentOf, TStat.isDone, ho] at h4 ⊢; exact h4, ?_, by simp_all, by simp_all⟩
     simp only [chanOk] at h5 ⊢
     rcases h5 with h5 | h5 <;> simp [h5, Chan.cancel, ho]
-  | rxDrop hn =>
+  | rxDrop _ hn hn2 =>
     refine ⟨h1, h2, h3, h4, ?_, h6, h7⟩
     show chanOk v.stat v.body .closed
     cases hst : v.stat <;> simp [chanOk, hst] at h5 ⊢
@@ -1039,37 +1046,474 @@ def Main.failed : Main → Prop
   | .dying _ | .dead _ => True
   | _ => False
 
-structure JInv (s : St) : Prop where
+/-- the part of the join invariant that also holds between the two halves of `reap` / `joinStart`
+(before the freed channel drops its queue) -/
+structure JPre (s : St) : Prop where
   /-- a worker leaves its loop only when the sender is gone and the queue is empty -/
   drained : ∀ w, s.main w = .draining ∨ s.main w = .exited → s.sender = false ∧ s.queue = []
-  /-- once the sender and all receivers are gone, the queue has been dropped -/
-  freedq : s.sender = false → anyRx s = false → s.queue = []
   qpos : s.queue ≠ [] → 0 < s.nw
   /-- `join` returns after every worker thread has finished, with the first panic in thread order -/
   joined : ∀ r, s.joined = some r → s.sender = false ∧ allGone s = true ∧ r = firstDead s
   /-- sequential mode: a task object is dropped unfinished only when a worker thread panicked -/
   seqdrop : s.conc = false → ∀ t o, s.stat t = .dropped o → ∃ w, w < s.nw ∧ (s.main w).failed
+  /-- in any mode: a task object is dropped unfinished only after `join` was called or a worker panicked -/
+  anydrop : ∀ t o, s.stat t = .dropped o → s.sender = false ∨ ∃ w, w < s.nw ∧ (s.main w).failed
+
+structure JInv (s : St) : Prop extends JPre s where
+  /-- once the sender and all receivers are gone, the queue has been dropped -/
+  freedq : s.sender = false → anyRx s = false → s.queue = []
 
 theorem JInv.init (nw : Nat) (conc : Bool) : JInv (init nw conc) := by
-  constructor <;> simp [Compio.Dispatcher.init]
+  refine ⟨⟨?_, ?_, ?_, ?_, ?_⟩, ?_⟩ <;> simp [Compio.Dispatcher.init]
 
 theorem gone_of_allGone {s : St} (h : allGone s = true) {w : Nat} (hw : w < s.nw) : (s.main w).gone = true :=
   (allGone_iff s).mp h w hw
 
 /-- events that leave workers, sender, queue and `joined` alone and drop nothing -/
-theorem JInv.same {s s' : St} (h : JInv s) (h1 : s'.main = s.main) (h2 : s'.sender = s.sender)
-    (h3 : s'.queue = s.queue) (h4 : s'.nw = s.nw) (h5 : s'.conc = s.conc) (h6 : s'.joined = s.joined)
-    (h7 : ∀ t o, s'.stat t = .dropped o → ∃ o', s.stat t = .dropped o') : JInv s' := by
-  have hany : anyRx s' = anyRx s := anyRx_congr h4 (by intro w _; rw [h1])
+theorem JPre.same {s s' : St} (h : JPre s) (h1 : s'.main = s.main) (h2 : s'.sender = s.sender)
+    (h3 : s.queue = [] → s'.queue = []) (h4 : s'.nw = s.nw) (h5 : s'.conc = s.conc) (h6 : s'.joined = s.joined)
+    (h7 : ∀ t o, s'.stat t = .dropped o → ∃ o', s.stat t = .dropped o') : JPre s' := by
   have hall : allGone s' = allGone s := by simp [allGone, h1, h4]
   have hfd : firstDead s' = firstDead s := by simp [firstDead, h1, h4]
   constructor
-  · intro w; rw [h1, h2, h3]; exact h.drained w
-  · rw [h2, h3, hany]; exact h.freedq
-  · rw [h3, h4]; exact h.qpos
+  · intro w hw; rw [h1] at hw; rw [h2]; exact ⟨(h.drained w hw).1, h3 (h.drained w hw).2⟩
+  · intro hq; rw [h4]; exact h.qpos (fun he => hq (h3 he))
   · intro r; rw [h6, h2, hall, hfd]; exact h.joined r
   · rw [h5, h4, h1]; intro hc t o hd
     obtain ⟨o', hd'⟩ := h7 t o hd
     exact h.seqdrop hc t o' hd'
+  · rw [h2, h4, h1]; intro t o hd
+    obtain ⟨o', hd'⟩ := h7 t o hd
+    exact h.anydrop t o' hd'
+
+theorem JInv.same {s s' : St} (h : JInv s) (h1 : s'.main = s.main) (h2 : s'.sender = s.sender)
+    (h3 : s.queue = [] → s'.queue = []) (h4 : s'.nw = s.nw) (h5 : s'.conc = s.conc) (h6 : s'.joined = s.joined)
+    (h7 : ∀ t o, s'.stat t = .dropped o → ∃ o', s.stat t = .dropped o') : JInv s' := by
+  refine ⟨h.toJPre.same h1 h2 h3 h4 h5 h6 h7, ?_⟩
+  have hany : anyRx s' = anyRx s := anyRx_congr h4 (by intro w _; rw [h1])
+  rw [h2, hany]; intro a b; exact h3 (h.freedq a b)
+
+/-- the loop / thread state of one unfinished worker changes -/
+theorem JPre.setMain {s s' : St} (h : JPre s) {w : Nat} {m : Main} (hw : w < s.nw)
+    (hng : (s.main w).gone = false) (h1 : s'.main = upd s.main w m) (h2 : s'.sender = s.sender)
+    (h3 : s.queue = [] → s'.queue = []) (h4 : s'.nw = s.nw) (h5 : s'.conc = s.conc) (h6 : s'.joined = s.joined)
+    (h7 : ∀ t o, s'.stat t = .dropped o → ∃ o', s.stat t = .dropped o')
+    (hm : m = .draining ∨ m = .exited → s.sender = false ∧ s.queue = [])
+    (hf : (s.main w).failed → m.failed) : JPre s' := by
+  constructor
+  · intro w' hw'
+    rw [h1, upd_apply] at hw'
+    rw [h2]
+    by_cases hww : w' = w
+    · simp [hww] at hw'; exact ⟨(hm hw').1, h3 (hm hw').2⟩
+    · simp [hww] at hw'; exact ⟨(h.drained w' hw').1, h3 (h.drained w' hw').2⟩
+  · intro hq; rw [h4]; exact h.qpos (fun he => hq (h3 he))
+  · intro r hj
+    rw [h6] at hj
+    have := gone_of_allGone (h.joined r hj).2.1 hw
+    rw [hng] at this; cases this
+  · rw [h5, h4]; intro hc t o hd
+    obtain ⟨o', hd'⟩ := h7 t o hd
+    obtain ⟨w0, hw0, hf0⟩ := h.seqdrop hc t o' hd'
+    refine ⟨w0, hw0, ?_⟩
+    rw [h1, upd_apply]
+    by_cases hww : w0 = w
+    · subst hww; simp; exact hf hf0
+    · simp [hww]; exact hf0
+  · rw [h2, h4]; intro t o hd
+    obtain ⟨o', hd'⟩ := h7 t o hd
+    rcases h.anydrop t o' hd' with hsd | ⟨w0, hw0, hf0⟩
+    · exact Or.inl hsd
+    · refine Or.inr ⟨w0, hw0, ?_⟩
+      rw [h1, upd_apply]
+      by_cases hww : w0 = w
+      · subst hww; simp; exact hf hf0
+      · simp [hww]; exact hf0
+
+/-- ... and the channel stays as connected as it was (or the queue is empty anyway) -/
+theorem JInv.setMain {s s' : St} (h : JInv s) {w : Nat} {m : Main} (hw : w < s.nw)
+    (hng : (s.main w).gone = false) (h1 : s'.main = upd s.main w m) (h2 : s'.sender = s.sender)
+    (h3 : s.queue = [] → s'.queue = []) (h4 : s'.nw = s.nw) (h5 : s'.conc = s.conc) (h6 : s'.joined = s.joined)
+    (h7 : ∀ t o, s'.stat t = .dropped o → ∃ o', s.stat t = .dropped o')
+    (hm : m = .draining ∨ m = .exited → s.sender = false ∧ s.queue = [])
+    (hf : (s.main w).failed → m.failed)
+    (hrx : m.holdsRx = (s.main w).holdsRx ∨ s.queue = []) : JInv s' := by
+  refine ⟨h.toJPre.setMain hw hng h1 h2 h3 h4 h5 h6 h7 hm hf, ?_⟩
+  rcases hrx with hrx | hrx
+  · have hany : anyRx s' = anyRx s := by
+      apply anyRx_congr h4
+      intro w' _; rw [h1, upd_apply]; split
+      · rename_i he; rw [he]; exact hrx
+      · rfl
+    rw [h2, hany]; intro a b; exact h3 (h.freedq a b)
+  · intro _ _; exact h3 hrx
+
+/-- `executor.clear()`: in sequential mode only a failed worker has anything to drop -/
+theorem JPre.clearExec {s : St} (h : JPre s) {w : Nat}
+    (hd : s.conc = false → ∀ t, s.active t w → w < s.nw ∧ (s.main w).failed)
+    (hd' : s.sender = false ∨ (w < s.nw ∧ (s.main w).failed)) : JPre (clearExec s w) := by
+  constructor
+  · intro w'; simpa using h.drained w'
+  · simpa using h.qpos
+  · intro r; simpa [allGone, firstDead] using h.joined r
+  · intro hc t o hdr
+    simp only [clearExec_conc, clearExec_nw, clearExec_main] at hc ⊢
+    rw [clearExec_stat] at hdr
+    by_cases ha : (s.stat t).activeOn w = true
+    · exact ⟨w, hd hc t ha⟩
+    · simp [ha] at hdr; exact h.seqdrop hc t o hdr
+  · intro t o hdr
+    simp only [clearExec_sender, clearExec_nw, clearExec_main] at ⊢
+    rw [clearExec_stat] at hdr
+    by_cases ha : (s.stat t).activeOn w = true
+    · rcases hd' with h1 | h1
+      · exact Or.inl h1
+      · exact Or.inr ⟨w, h1⟩
+    · simp [ha] at hdr; exact h.anydrop t o hdr
+
+/-- freeing the channel -/
+theorem JPre.gc {s : St} (h : JPre s) : JInv (gc s) := by
+  have hfail : s.conc = false → freed s = true → s.queue ≠ [] → ∃ w, w < s.nw ∧ (s.main w).failed := by
+    intro _ hf hq
+    have h0 := h.qpos hq
+    simp only [freed, Bool.and_eq_true, Bool.not_eq_true'] at hf
+    have hr := (anyRx_false_iff s).mp hf.2 0 h0
+    refine ⟨0, h0, ?_⟩
+    cases hm : s.main 0 <;> simp [hm, Main.holdsRx] at hr
+    · exact (hq (h.drained 0 (Or.inl hm)).2).elim
+    · exact (hq (h.drained 0 (Or.inr hm)).2).elim
+    · simp [Main.failed]
+  refine ⟨⟨?_, ?_, ?_, ?_, ?_⟩, ?_⟩
+  · intro w hw
+    simp only [gc_main, gc_sender] at hw ⊢
+    have := h.drained w hw
+    exact ⟨this.1, by rw [gc_queue, this.2]; simp⟩
+  · intro hq; rw [gc_queue] at hq; simp only [gc_nw]
+    split at hq
+    · exact (hq rfl).elim
+    · exact h.qpos hq
+  · intro r; simpa [allGone, firstDead] using h.joined r
+  · intro hc t o hdr
+    simp only [gc_conc, gc_nw, gc_main] at hc ⊢
+    rw [gc_stat] at hdr
+    by_cases hg : freed s = true ∧ t ∈ s.queue
+    · exact hfail hc hg.1 (List.ne_nil_of_mem hg.2)
+    · simp [hg] at hdr; exact h.seqdrop hc t o hdr
+  · intro t o hdr
+    simp only [gc_sender, gc_nw, gc_main] at ⊢
+    rw [gc_stat] at hdr
+    by_cases hg : freed s = true ∧ t ∈ s.queue
+    · left
+      have := hg.1
+      simp only [freed, Bool.and_eq_true, Bool.not_eq_true'] at this
+      exact this.1
+    · simp [hg] at hdr; exact h.anydrop t o hdr
+  · intro hs hr
+    simp only [gc_sender, anyRx_gc] at hs hr
+    rw [gc_queue]; simp [freed, hs, hr]
+
+theorem dropped_upd {s : St} {t : Nat} {x : TStat} (hx : ∀ o, x ≠ .dropped o) :
+    ∀ t' o, upd s.stat t x t' = .dropped o → ∃ o', s.stat t' = .dropped o' := by
+  intro t' o h
+  rw [upd_apply] at h
+  by_cases ht : t' = t
+  · simp [ht] at h; exact (hx o h).elim
+  · simp [ht] at h; exact ⟨o, h⟩
+
+theorem JInv.step {s s' : St} {e : Event} (h : JInv s) (hw : WInv s) (hs : step? s e = some s') :
+    JInv s' := by
+  cases e with
+  | dispatch d t b =>
+    obtain ⟨hsend, ha, _, hc | hc⟩ := dispatch?_some hs
+    · obtain ⟨hrx, rfl⟩ := hc
+      refine ⟨⟨?_, ?_, ?_, ?_, ?_⟩, ?_⟩
+      · intro w hm
+        have := (h.drained w hm).1
+        rw [hsend] at this; cases this
+      · intro _
+        obtain ⟨w, hw', _⟩ := (anyRx_iff s).mp hrx
+        exact Nat.lt_of_le_of_lt (Nat.zero_le w) hw'
+      · intro r hj
+        have := (h.joined r hj).1
+        rw [hsend] at this; cases this
+      · intro hc t' o hd
+        obtain ⟨o', hd'⟩ := dropped_upd (s := s) (t := t) (x := .queued) (by simp) t' o hd
+        exact h.seqdrop hc t' o' hd'
+      · intro t' o hd
+        obtain ⟨o', hd'⟩ := dropped_upd (s := s) (t := t) (x := .queued) (by simp) t' o hd
+        exact h.anydrop t' o' hd'
+      · intro hf; rw [hsend] at hf; cases hf
+    · obtain ⟨_, rfl⟩ := hc
+      exact h.same rfl rfl (fun x => x) rfl rfl rfl (fun t o hd => ⟨o, hd⟩)
+  | dispatchBlocking d t b ok =>
+    obtain ⟨_, ha, _, hc | hc⟩ := dispatchBlocking?_some hs
+    · obtain ⟨_, rfl⟩ := hc
+      exact h.same rfl rfl (fun x => x) rfl rfl rfl (dropped_upd (by simp))
+    · obtain ⟨_, rfl⟩ := hc
+      exact h.same rfl rfl (fun x => x) rfl rfl rfl (fun t o hd => ⟨o, hd⟩)
+  | runBlocking t =>
+    obtain ⟨hp, hc | hc⟩ := runBlocking?_some hs
+    · obtain ⟨v, _, rfl⟩ := hc
+      exact h.same rfl rfl (fun x => x) rfl rfl rfl (dropped_upd (by simp))
+    · obtain ⟨_, rfl⟩ := hc
+      exact h.same rfl rfl (fun x => x) rfl rfl rfl (dropped_upd (by simp))
+  | rxDrop t =>
+    obtain ⟨_, _, rfl⟩ := rxDrop?_some hs
+    exact h.same rfl rfl (fun x => x) rfl rfl rfl (fun t o hd => ⟨o, hd⟩)
+  | recv w t =>
+    obtain ⟨hlt, hi, hmem, rfl⟩ := recv?_some hs
+    by_cases hc : s.conc = true
+    · exact h.same (by simp [hc]) rfl (by intro hq; simp [hq]) rfl rfl rfl (dropped_upd (by simp))
+    · exact h.setMain (w := w) (m := .awaiting t) hlt (by simp [hi, Main.gone]) (by simp [hc]) rfl
+        (by intro hq; simp [hq]) rfl rfl rfl (dropped_upd (by simp)) (by simp)
+        (by simp [hi, Main.failed]) (Or.inl (by simp [hi, Main.holdsRx]))
+  | poll w t =>
+    obtain ⟨hlt, hcp, hc | hc | hc | hc⟩ := poll?_some hs
+    · obtain ⟨hst, rfl⟩ := hc
+      exact h.same rfl rfl (fun x => x) rfl rfl rfl (dropped_upd (by simp))
+    · obtain ⟨k, hst, rfl⟩ := hc
+      exact h.same rfl rfl (fun x => x) rfl rfl rfl (dropped_upd (by simp))
+    · obtain ⟨v, hst, _, rfl⟩ := hc
+      by_cases hk : s.main w = .awaiting t
+      · exact h.setMain (w := w) (m := .idle) hlt (by simp [hk, Main.gone]) (by simp [resume, hk]) rfl
+          (fun x => x) rfl rfl rfl (dropped_upd (by simp)) (by simp) (by simp [hk, Main.failed])
+          (Or.inl (by simp [hk, Main.holdsRx]))
+      · exact h.same (by simp [resume, hk]) rfl (fun x => x) rfl rfl rfl (dropped_upd (by simp))
+    · obtain ⟨hst, _, rfl⟩ := hc
+      by_cases hk : s.main w = .awaiting t
+      · exact h.setMain (w := w) (m := .idle) hlt (by simp [hk, Main.gone]) (by simp [resume, hk]) rfl
+          (fun x => x) rfl rfl rfl (dropped_upd (by simp)) (by simp) (by simp [hk, Main.failed])
+          (Or.inl (by simp [hk, Main.holdsRx]))
+      · exact h.same (by simp [resume, hk]) rfl (fun x => x) rfl rfl rfl (dropped_upd (by simp))
+  | die w p =>
+    obtain ⟨hlt, hil, rfl⟩ := die?_some hs
+    have hng : (s.main w).gone = false := by cases hm : s.main w <;> simp [hm, Main.inLoop, Main.gone] at hil ⊢
+    have hrx : (Main.dying p).holdsRx = (s.main w).holdsRx := by
+      cases hm : s.main w <;> simp [hm, Main.inLoop, Main.holdsRx] at hil ⊢
+    exact h.setMain (w := w) (m := .dying p) hlt hng rfl rfl (fun x => x) rfl rfl rfl
+      (fun t o hd => ⟨o, hd⟩) (by simp) (by simp [Main.failed]) (Or.inl hrx)
+  | reap w =>
+    obtain ⟨p, hlt, hdy, rfl⟩ := reap?_some hs
+    have h1 : JPre { s with main := upd s.main w (.dead p) } :=
+      h.toJPre.setMain (w := w) (m := .dead p) hlt (by simp [hdy, Main.gone]) rfl rfl (fun x => x) rfl rfl rfl
+        (fun t o hd => ⟨o, hd⟩) (by simp) (by simp [Main.failed])
+    have h2 : JPre (clearExec { s with main := upd s.main w (.dead p) } w) :=
+      h1.clearExec (by intro _ t _; exact ⟨hlt, by simp [Main.failed]⟩) (Or.inr ⟨hlt, by simp [Main.failed]⟩)
+    exact h2.gc
+  | joinStart =>
+    obtain ⟨hsend, rfl⟩ := joinStart?_some hs
+    have h1 : JPre { s with sender := false } := by
+      constructor
+      · intro w hm
+        have := (h.drained w hm).1
+        rw [hsend] at this; cases this
+      · exact h.qpos
+      · intro r hj
+        have := (h.joined r hj).1
+        rw [hsend] at this; cases this
+      · exact h.seqdrop
+      · intro t o _; exact Or.inl rfl
+    exact h1.gc
+  | exitLoop w =>
+    obtain ⟨hlt, hi, hsend, hq, rfl⟩ := exitLoop?_some hs
+    exact h.setMain (w := w) (m := .draining) hlt (by simp [hi, Main.gone]) rfl rfl (fun x => x) rfl rfl rfl
+      (fun t o hd => ⟨o, hd⟩) (fun _ => ⟨hsend, hq⟩) (by simp [hi, Main.failed]) (Or.inr hq)
+  | teardown w =>
+    obtain ⟨hlt, hdr, rfl⟩ := teardown?_some hs
+    have h1 : JPre { s with main := upd s.main w .exited } :=
+      h.toJPre.setMain (w := w) (m := .exited) hlt (by simp [hdr, Main.gone]) rfl rfl (fun x => x) rfl rfl rfl
+        (fun t o hd => ⟨o, hd⟩) (fun _ => h.drained w (Or.inl hdr)) (by simp [hdr, Main.failed])
+    have h2 : JPre (clearExec { s with main := upd s.main w .exited } w) := by
+      refine h1.clearExec ?_ (Or.inl (h.drained w (Or.inl hdr)).1)
+      intro hc t ha
+      rcases hw.seq hc t w ha with h3 | ⟨q, h3⟩ <;> simp [hdr] at h3
+    refine ⟨h2, ?_⟩
+    intro hsd hrx
+    have hany : anyRx (clearExec { s with main := upd s.main w .exited } w) = anyRx s := by
+      rw [anyRx_clearExec]
+      refine anyRx_congr (s := s) rfl ?_
+      intro w' _
+      show (upd s.main w .exited w').holdsRx = _
+      rw [upd_apply]; split
+      · rename_i he; rw [he, hdr]; rfl
+      · rfl
+    rw [hany] at hrx
+    exact h.freedq hsd hrx
+  | joinReturn =>
+    obtain ⟨hsend, hj, hall, rfl⟩ := joinReturn?_some hs
+    refine ⟨⟨h.drained, h.qpos, ?_, h.seqdrop, h.anydrop⟩, h.freedq⟩
+    intro r hr
+    have hr : some (firstDead s) = some r := hr
+    exact ⟨hsend, hall, (Option.some.inj hr).symm⟩
+
+/-! ### `firstDead`: the panic `join` resumes -/
+
+def deadPayload (m : Main) : Option Nat := match m with | .dead p => some p | _ => none
+
+theorem findSome_range_spec (f : Nat → Option Nat) (n : Nat) :
+    match (List.range n).findSome? f with
+    | none => ∀ w, w < n → f w = none
+    | some p => ∃ w, w < n ∧ f w = some p ∧ ∀ w', w' < w → f w' = none := by
+  induction n with
+  | zero => simp
+  | succ n ih =>
+    rw [List.range_succ, List.findSome?_append]
+    cases h : (List.range n).findSome? f with
+    | none =>
+      rw [h] at ih
+      simp only [Option.none_or, List.findSome?_cons, List.findSome?_nil]
+      cases hn : f n with
+      | none =>
+        intro w hw
+        by_cases hwn : w = n
+        · rw [hwn]; exact hn
+        · exact ih w (by omega)
+      | some p => exact ⟨n, by omega, hn, fun w' hw' => ih w' hw'⟩
+    | some p =>
+      rw [h] at ih
+      simp only [Option.some_or]
+      obtain ⟨w, hw, hf, hlt⟩ := ih
+      exact ⟨w, by omega, hf, hlt⟩
+
+theorem firstDead_none {s : St} (h : firstDead s = none) : ∀ w, w < s.nw → ∀ p, s.main w ≠ .dead p := by
+  have := findSome_range_spec (fun w => deadPayload (s.main w)) s.nw
+  have hfd : firstDead s = (List.range s.nw).findSome? (fun w => deadPayload (s.main w)) := rfl
+  rw [← hfd, h] at this
+  intro w hw p hm
+  have := this w hw
+  simp [deadPayload, hm] at this
+
+theorem firstDead_some {s : St} {p : Nat} (h : firstDead s = some p) :
+    ∃ w, w < s.nw ∧ s.main w = .dead p ∧ ∀ w', w' < w → ∀ q, s.main w' ≠ .dead q := by
+  have := findSome_range_spec (fun w => deadPayload (s.main w)) s.nw
+  have hfd : firstDead s = (List.range s.nw).findSome? (fun w => deadPayload (s.main w)) := rfl
+  rw [← hfd, h] at this
+  obtain ⟨w, hw, hf, hlt⟩ := this
+  refine ⟨w, hw, ?_, ?_⟩
+  · cases hm : s.main w <;> simp [deadPayload, hm] at hf
+    rw [hf]
+  · intro w' hw' q hm
+    have := hlt w' hw'
+    simp [deadPayload, hm] at this
+
+/-! ### worker indices recorded in task places are workers of this dispatcher -/
+
+def widx : TStat → Option Nat
+  | .spawned w | .running w _ | .done w | .dropped (some w) => some w
+  | _ => none
+
+def XInv (s : St) : Prop := ∀ t w, widx (s.stat t) = some w → w < s.nw
+
+theorem XInv.same {s s' : St} (h : XInv s) (h1 : s'.stat = s.stat) (h2 : s'.nw = s.nw) : XInv s' := by
+  intro t w; rw [h1, h2]; exact h t w
+
+theorem XInv.setStat {s s' : St} (h : XInv s) {t : Nat} {x : TStat} (hx : ∀ w, widx x = some w → w < s.nw)
+    (h1 : s'.stat = upd s.stat t x) (h2 : s'.nw = s.nw) : XInv s' := by
+  intro t' w; rw [h1, h2, upd_apply]
+  by_cases ht : t' = t
+  · simp [ht]; exact hx w
+  · simp [ht]; exact h t' w
+
+theorem XInv.clearExec {s : St} (h : XInv s) (w : Nat) : XInv (clearExec s w) := by
+  intro t w'
+  rw [clearExec_stat, clearExec_nw]
+  by_cases ha : (s.stat t).activeOn w = true
+  · simp only [ha, if_true]
+    intro hw
+    apply h t w'
+    cases hst : s.stat t <;> simp [hst, TStat.dropIt, widx] at hw ⊢
+    exact hw
+  · simp only [ha]; exact h t w'
+
+theorem XInv.gc {s : St} (h : XInv s) : XInv (gc s) := by
+  intro t w
+  rw [gc_stat, gc_nw]
+  by_cases hg : freed s = true ∧ t ∈ s.queue
+  · simp [hg, widx]
+  · simp only [hg, if_false]; exact h t w
+
+theorem XInv.step {s s' : St} {e : Event} (h : XInv s) (hs : step? s e = some s') : XInv s' := by
+  cases e with
+  | dispatch d t b =>
+    obtain ⟨_, _, _, hc | hc⟩ := dispatch?_some hs
+    · obtain ⟨_, rfl⟩ := hc; exact h.setStat (t := t) (x := .queued) (by simp [widx]) rfl rfl
+    · obtain ⟨_, rfl⟩ := hc; exact h.same rfl rfl
+  | dispatchBlocking d t b ok =>
+    obtain ⟨_, _, _, hc | hc⟩ := dispatchBlocking?_some hs
+    · obtain ⟨_, rfl⟩ := hc; exact h.setStat (t := t) (x := .pooled) (by simp [widx]) rfl rfl
+    · obtain ⟨_, rfl⟩ := hc; exact h.same rfl rfl
+  | runBlocking t =>
+    obtain ⟨_, hc | hc⟩ := runBlocking?_some hs
+    · obtain ⟨v, _, rfl⟩ := hc; exact h.setStat (t := t) (x := .poolDone) (by simp [widx]) rfl rfl
+    · obtain ⟨_, rfl⟩ := hc; exact h.setStat (t := t) (x := .poolDone) (by simp [widx]) rfl rfl
+  | rxDrop t => obtain ⟨_, _, rfl⟩ := rxDrop?_some hs; exact h.same rfl rfl
+  | recv w t =>
+    obtain ⟨hlt, _, _, rfl⟩ := recv?_some hs
+    exact h.setStat (t := t) (x := .spawned w) (by simp [widx]; exact hlt) rfl rfl
+  | poll w t =>
+    obtain ⟨hlt, _, hc | hc | hc | hc⟩ := poll?_some hs
+    · obtain ⟨_, rfl⟩ := hc; exact h.setStat (t := t) (by simp [widx]; exact hlt) rfl rfl
+    · obtain ⟨k, _, rfl⟩ := hc; exact h.setStat (t := t) (by simp [widx]; exact hlt) rfl rfl
+    · obtain ⟨v, _, _, rfl⟩ := hc; exact h.setStat (t := t) (by simp [widx]; exact hlt) rfl rfl
+    · obtain ⟨_, _, rfl⟩ := hc; exact h.setStat (t := t) (by simp [widx]; exact hlt) rfl rfl
+  | die w p => obtain ⟨_, _, rfl⟩ := die?_some hs; exact h.same rfl rfl
+  | reap w =>
+    obtain ⟨p, _, _, rfl⟩ := reap?_some hs
+    exact ((h.same (s' := { s with main := upd s.main w (.dead p) }) rfl rfl).clearExec w).gc
+  | joinStart =>
+    obtain ⟨_, rfl⟩ := joinStart?_some hs
+    exact (h.same (s' := { s with sender := false }) rfl rfl).gc
+  | exitLoop w => obtain ⟨_, _, _, _, rfl⟩ := exitLoop?_some hs; exact h.same rfl rfl
+  | teardown w =>
+    obtain ⟨_, _, rfl⟩ := teardown?_some hs
+    exact (h.same (s' := { s with main := upd s.main w .exited }) rfl rfl).clearExec w
+  | joinReturn => obtain ⟨_, _, _, rfl⟩ := joinReturn?_some hs; exact h.same rfl rfl
+
+/-! ### all invariants together -/
+
+structure Inv (s : St) : Prop where
+  t : TInv s
+  w : WInv s
+  j : JInv s
+  x : XInv s
+
+theorem Inv.init (nw : Nat) (conc : Bool) : Inv (init nw conc) :=
+  ⟨TInv.init nw conc, WInv.init nw conc, JInv.init nw conc, by intro t w; simp [Compio.Dispatcher.init, widx]⟩
+
+theorem Inv.step {s s' : St} {e : Event} (h : Inv s) (hs : step? s e = some s') : Inv s' :=
+  ⟨h.t.step hs, h.w.step h.t.q hs, h.j.step h.w hs, h.x.step hs⟩
+
+theorem Reachable.inv {nw : Nat} {conc : Bool} {s : St} (h : Reachable nw conc s) : Inv s := by
+  obtain ⟨evs, h⟩ := h
+  exact run?_invariant (P := Inv) (fun _ _ _ hp hs => hp.step hs) (Inv.init nw conc) h
+
+theorem Reachable.nw_conc {nw : Nat} {conc : Bool} {s : St} (h : Reachable nw conc s) :
+    s.nw = nw ∧ s.conc = conc := by
+  obtain ⟨evs, h⟩ := h
+  refine run?_invariant (P := fun s => s.nw = nw ∧ s.conc = conc) ?_ ⟨rfl, rfl⟩ h
+  intro s s' e hp hs
+  cases e with
+  | dispatch d t b =>
+    obtain ⟨_, _, _, hc | hc⟩ := dispatch?_some hs <;> (obtain ⟨_, rfl⟩ := hc; exact hp)
+  | dispatchBlocking d t b ok =>
+    obtain ⟨_, _, _, hc | hc⟩ := dispatchBlocking?_some hs <;> (obtain ⟨_, rfl⟩ := hc; exact hp)
+  | runBlocking t =>
+    obtain ⟨_, hc | hc⟩ := runBlocking?_some hs
+    · obtain ⟨v, _, rfl⟩ := hc; exact hp
+    · obtain ⟨_, rfl⟩ := hc; exact hp
+  | rxDrop t => obtain ⟨_, _, rfl⟩ := rxDrop?_some hs; exact hp
+  | recv w t => obtain ⟨_, _, _, rfl⟩ := recv?_some hs; exact hp
+  | poll w t =>
+    obtain ⟨_, _, hc | hc | hc | hc⟩ := poll?_some hs
+    · obtain ⟨_, rfl⟩ := hc; exact hp
+    · obtain ⟨k, _, rfl⟩ := hc; exact hp
+    · obtain ⟨v, _, _, rfl⟩ := hc; exact hp
+    · obtain ⟨_, _, rfl⟩ := hc; exact hp
+  | die w p => obtain ⟨_, _, rfl⟩ := die?_some hs; exact hp
+  | reap w => obtain ⟨p, _, _, rfl⟩ := reap?_some hs; simpa using hp
+  | joinStart => obtain ⟨_, rfl⟩ := joinStart?_some hs; simpa using hp
+  | exitLoop w => obtain ⟨_, _, _, _, rfl⟩ := exitLoop?_some hs; exact hp
+  | teardown w => obtain ⟨_, _, rfl⟩ := teardown?_some hs; exact hp
+  | joinReturn => obtain ⟨_, _, _, rfl⟩ := joinReturn?_some hs; exact hp
 
 end Compio.Dispatcher
